@@ -79,8 +79,8 @@ func DrawKnobs(r *Rng) Knobs {
 
 var (
 	varNames   = []string{"a", "b", "c", "d", "x1", "y_2", "user.age", "is_ok", "_t", "Ünï", "v", "w.z", "locale", "n0", "fi", "variable", "operator", "DNE", "T", "nil", "True", "FALSE"}
-	constNames = []string{"K0", "K1", "IOS", "Good", "k_2", "Const.X"}
-	opNames    = []string{"f0", "f1", "g2", "h3", "calc.it", "is_child", "fi", "AND", "Or", "Not", "IN"}
+	constNames = []string{"K0", "K1", "IOS", "Good", "k_2", "Const.X", "Größe"}
+	opNames    = []string{"f0", "f1", "g2", "h3", "calc.it", "is_child", "fi", "AND", "Or", "Not", "IN", "größe", "検査"}
 	intPool    = []int64{0, 1, -1, 2, 3, 5, 7, 10, 18, 100, -100, 9999, 10000, math.MaxInt64, math.MinInt64, 4000, 127, 128, 255, 256, 32767, 32768, -32768, math.MaxInt32, math.MinInt32}
 	strPlain   = []string{"", "a", "b", "fi", "if", "DNE", "true", "nil", "and", "en-US", "zh", "Male", "1.2.3", "2.3", "10.0.1", "2021-01-01", "2021-01-01 11:58:56", "2020-02-29", "hello", "你好"}
 	strWeird   = []string{"a b", "(x)", ";;c", "tab\there", "line\nbreak", "back\\slash", "x;y", " lead", "👋~ 👶", "[1,2]", "1.2.x", "1.10000", "2021-13-01", "2021-02-30", "99999.1", "1.2.3.4"}
@@ -190,6 +190,10 @@ func NewGen(r *Rng, k Knobs) *Gen {
 			sp.Stateless = true
 		}
 		sp.Mutates = r.P(0.2)
+		if ret == TStr && r.P(0.15) {
+			sp.Ret = TAny // returns nil
+			sp.Stateless = false
+		}
 		if ret == TInt && r.P(0.12) {
 			sp.Ret = TRawInt // returns a Go int, not an int64
 			if !k.RawConsts {
